@@ -106,5 +106,6 @@ pub fn policy_digest(p: &Policy) -> u64 {
         d.u64(t.sticky as u64);
     }
     d.u64(p.flush_fail.map(|x| x as u64 + 1).unwrap_or(0));
+    d.u64(p.not_seekable as u64);
     d.finish()
 }
